@@ -176,8 +176,10 @@ def gen(tier, rng):
         kind = "picky" if rng.random() < 0.3 else "raw"
         mx = rng.choice([0, 1, 2, 3, 5, 8, 16, 40, 255, 256, 300, "default", 2 ** 64 - 1]) if rng.random() < 0.8 else rng.randint(0, 70)
         mv = _maxv({"max": mx})
-        lmax = (70 if quick else 400) if rng.random() < 0.9 else (600 if quick else 3000)
-        c = _case(kind, mx, _rand_msgs(rng, min(mv, 10 ** 6), 5 if quick else 9, lmax))
+        lmax = (70 if quick else 400) if rng.random() < 0.9 else (600 if quick else 1500)
+        # (a list literal beyond ~20k elements overflows coqtop's stack: keep streams below 10k bytes)
+        nm = 5 if quick else (9 if lmax <= 400 else 6)
+        c = _case(kind, mx, _rand_msgs(rng, min(mv, 10 ** 6), nm, lmax))
         if rng.random() < 0.45:
             c["stream"] = _mutate(rng, c)
         n = len(c["stream"] if c["stream"] is not None else encoded(c))
